@@ -207,6 +207,9 @@ def rule_ms(ctx: Ctx):
                     for x, y in ((a0[2], a0[3]), (a0[3], a0[2])):
                         if x[0] == "list" and len(x) == 2:
                             return x[1], y
+                # itertools.repeat(filler, count)
+                if a0 is not None and a0[0] == "call" and a0[1] == ("glob", "itertools.repeat") and len(a0[2]) == 2 and a0[2][0][0] != "kw" and a0[2][1][0] != "kw":
+                    return a0[2][0], a0[2][1]
                 return None, None
             cnts = {fill(e)[1] for e in exts}
             r1.ob(all(len(by.get(a, [])) == 1 for a in ARRAYS) and len(cnts) == 1, lambda: _f(
